@@ -43,6 +43,9 @@ def r07a(F):
 		ok = bool(gc) and all(fu.reach_back([b]) & gc for b in bc)
 		out.append(Result('07.a', ok, ('ok:' if ok else 'bypass:') + 'via-generate_claim@' + fn.rsplit('::', 1)[-1], '%s broadcasts only what generate_claim produced' % fn.rsplit('::', 1)[-1], len(bc) + len(gc), where=F.where(fn)))
 	out += P1_who_may_call(F, '07.a', [OTX + 'generate_claim'], sorted(allowed), floor=4)
+	# the claim requests / watched outputs collected when we broadcast our own commitment are returned at every exit that follows an insertion
+	out += P_accum_returned(F, '07.a', 'lightning::chain::channelmonitor::ChannelMonitorImpl::generate_claimable_outpoints_and_watch_outputs', min_instances=2)
+	out += P_accum_returned(F, '07.a', 'lightning::chain::channelmonitor::ChannelMonitorImpl::get_counterparty_output_claim_info')
 	return out
 
 def r07b(F):
